@@ -19,6 +19,8 @@ open SoupVerif
 #print axioms C11.name_of_values
 #print axioms C11.xml_attr_values_exact
 #print axioms C11.xml_attr_name_exact
+#print axioms C11.xml_attr_values_empty_exact
+#print axioms C11.xml_attr_name_empty_exact
 #print axioms C11.xml_attr_values_bare_exact
 #print axioms C11.xml_attr_bare_exact
 #print axioms C11.xml_attr_values_any_exact
